@@ -161,4 +161,176 @@ theorem joinSegs_normal (dir : Str) (segs : List Str) (h : ∀ s ∈ segs, Norma
 theorem relSegs_normal (name : Str) : ∀ s ∈ relSegs name, Normal s :=
   cleanSegs_normal _ (split_mem_noslash _)
 
+/-! ### non-interference: the handler only looks at paths on the way to, or below, the document root -/
+
+theorem walk_congr (t1 t2 : List Entry) (target : List Str)
+    (h : ∀ p, p <+: target → nodeAt t1 p = nodeAt t2 p) :
+    ∀ (rest pre : List Str), pre ++ rest = target → walk t1 pre rest = walk t2 pre rest := by
+  intro rest
+  induction rest with
+  | nil =>
+    intro pre hp
+    have : nodeAt t1 pre = nodeAt t2 pre := h pre (by rw [← hp]; simp)
+    simp only [walk, this]
+  | cons s rest ih =>
+    intro pre hp
+    have h1 : nodeAt t1 pre = nodeAt t2 pre := h pre (by rw [← hp]; exact List.prefix_append _ _)
+    have h2 := ih (pre ++ [s]) (by rw [← hp]; simp)
+    simp only [walk, h1, h2]
+
+/-- the two configurations have the same sandbox and root, and their trees agree at every place that is an
+    ancestor of the root, the root itself, or below the root (they may differ anywhere else) -/
+def AgreeBelowRoot (c1 c2 : Cfg) : Prop :=
+  c1.sb = c2.sb ∧ c1.root = c2.root ∧
+  ∀ p, (c1.sb ++ p <+: rootSegs c1 ∨ rootSegs c1 <+: c1.sb ++ p) → nodeAt c1.tree p = nodeAt c2.tree p
+
+theorem resolve_congr (c1 c2 : Cfg) (h : AgreeBelowRoot c1 c2) (segs : List Str) :
+    resolve c1.tree c1.sb (rootSegs c1 ++ segs) = resolve c2.tree c2.sb (rootSegs c2 ++ segs) := by
+  obtain ⟨hsb, hroot, hag⟩ := h
+  have hrs : rootSegs c2 = rootSegs c1 := by unfold rootSegs; rw [hroot]
+  rw [hrs, ← hsb]
+  unfold resolve
+  by_cases hp : c1.sb.isPrefixOf (rootSegs c1 ++ segs) = true
+  · simp only [hp, if_true]
+    have hpre : c1.sb <+: rootSegs c1 ++ segs := List.isPrefixOf_iff_prefix.mp hp
+    obtain ⟨rel, hrel⟩ := hpre
+    have hdrop : (rootSegs c1 ++ segs).drop c1.sb.length = rel := by
+      rw [← hrel]; simp
+    rw [hdrop]
+    apply walk_congr _ _ rel _ rel [] (by simp)
+    intro p hpp
+    apply hag
+    have h1 : c1.sb ++ p <+: rootSegs c1 ++ segs := by
+      rw [← hrel]; exact (List.prefix_append_right_inj _).mpr hpp
+    have h2 : rootSegs c1 <+: rootSegs c1 ++ segs := List.prefix_append _ _
+    exact List.prefix_or_prefix_of_prefix h1 h2
+  · simp [hp]
+
+/-! ### lemmas about newStaticFile used by the property theorems -/
+
+theorem openSegs_under_root (cfg : Cfg) (fname : Str) (full : List Str) (h : openSegs cfg fname = some full) :
+    ∃ segs, full = rootSegs cfg ++ segs ∧ ∀ s ∈ segs, Normal s := by
+  unfold openSegs dirOpenRel at h
+  simp only [] at h
+  split at h
+  · simp at h
+  · simp only [Option.map_some, Option.some.injEq] at h
+    exact ⟨relSegs fname, by rw [← h, joinSegs_normal _ _ (relSegs_normal fname)]; rfl, relSegs_normal fname⟩
+
+theorem newStaticFile_ok (cfg : Cfg) (fname : Str) (encs : List Enc) (c : Str) (e : Option Enc)
+    (h : newStaticFile cfg fname encs = .ok (c, e)) :
+    ∃ segs, (∀ s ∈ segs, Normal s) ∧ resolve cfg.tree cfg.sb (rootSegs cfg ++ segs) = Res.file c := by
+  unfold newStaticFile at h
+  simp only [] at h
+  split at h
+  · cases h
+  · rename_i full hopen
+    obtain ⟨segs, hfull, hn⟩ := openSegs_under_root cfg _ full hopen
+    split at h
+    · rename_i c' hres
+      simp only [Except.ok.injEq, Prod.mk.injEq] at h
+      exact ⟨segs, hn, by rw [← hfull, hres, h.1]⟩
+    · cases h
+    · cases h
+    · cases h
+
+theorem pickVariant_mem (cfg : Cfg) (fname : Str) (encs : List Enc) :
+    (pickVariant cfg fname encs).1 = fname ∨ ∃ e ∈ encs, (pickVariant cfg fname encs).1 = fname ++ e.ext := by
+  induction encs with
+  | nil => left; rfl
+  | cons e es ih =>
+    unfold pickVariant
+    split
+    · right; exact ⟨e, by simp, rfl⟩
+    · rcases ih with h | ⟨e', he', h⟩
+      · left; exact h
+      · right; exact ⟨e', List.mem_cons_of_mem _ he', h⟩
+
+theorem newStaticFile_missing (cfg : Cfg) (fname : Str) (encs : List Enc)
+    (h : ∀ n ∈ fname :: encs.map (fun e => fname ++ e.ext), atRoot cfg n = Res.notExist ∧ (dirOpenRel n).isSome = true) :
+    newStaticFile cfg fname encs = .error Err.notExist := by
+  have hv : (pickVariant cfg fname encs).1 ∈ fname :: encs.map (fun e => fname ++ e.ext) := by
+    rcases pickVariant_mem cfg fname encs with h' | ⟨e, he, h'⟩
+    · rw [h']; simp
+    · rw [h']; exact List.mem_cons_of_mem _ (List.mem_map.mpr ⟨e, he, rfl⟩)
+  obtain ⟨h1, h2⟩ := h _ hv
+  unfold newStaticFile
+  simp only []
+  have hopen : openSegs cfg (pickVariant cfg fname encs).1 = some (rootSegs cfg ++ relSegs (pickVariant cfg fname encs).1) := by
+    unfold openSegs
+    cases hd : dirOpenRel (pickVariant cfg fname encs).1 with
+    | none => rw [hd] at h2; simp at h2
+    | some segs =>
+      have : segs = relSegs (pickVariant cfg fname encs).1 := by
+        unfold dirOpenRel at hd
+        simp only [] at hd
+        split at hd
+        · cases hd
+        · exact (Option.some.inj hd).symm
+      subst this
+      simp only [Option.map_some]
+      rw [joinSegs_normal _ _ (relSegs_normal _)]; rfl
+  rw [hopen]
+  unfold atRoot at h1
+  simp only [h1]
+
+theorem probeSegs_eq (cfg : Cfg) (f : Str) : probeSegs cfg f = rootSegs cfg ++ relSegs f := by
+  unfold probeSegs; rw [joinSegs_normal _ _ (relSegs_normal f)]; rfl
+
+theorem openSegs_eq (cfg : Cfg) (f : Str) :
+    openSegs cfg f = (dirOpenRel f).map (fun _ => rootSegs cfg ++ relSegs f) := by
+  unfold openSegs dirOpenRel
+  simp only []
+  split
+  · rfl
+  · simp only [Option.map_some]
+    rw [joinSegs_normal _ _ (relSegs_normal f)]; rfl
+
+theorem probeExists_congr (c1 c2 : Cfg) (h : AgreeBelowRoot c1 c2) (f : Str) :
+    probeExists c1 f = probeExists c2 f := by
+  unfold probeExists
+  rw [probeSegs_eq, probeSegs_eq, resolve_congr c1 c2 h]
+
+theorem pickVariant_congr (c1 c2 : Cfg) (h : AgreeBelowRoot c1 c2) (f : Str) (encs : List Enc) :
+    pickVariant c1 f encs = pickVariant c2 f encs := by
+  induction encs with
+  | nil => rfl
+  | cons e es ih => unfold pickVariant; rw [probeExists_congr c1 c2 h, ih]
+
+theorem newStaticFile_congr (c1 c2 : Cfg) (h : AgreeBelowRoot c1 c2) (f : Str) (encs : List Enc) :
+    newStaticFile c1 f encs = newStaticFile c2 f encs := by
+  unfold newStaticFile
+  rw [pickVariant_congr c1 c2 h]
+  simp only [openSegs_eq]
+  cases dirOpenRel (pickVariant c2 f encs).1 with
+  | none => rfl
+  | some segs =>
+    simp only [Option.map_some]
+    rw [resolve_congr c1 c2 h]
+
+theorem newStaticFile_err (cfg : Cfg) (f : Str) (encs : List Enc) (e : Err)
+    (h : newStaticFile cfg f encs = .error e) (hne : e ≠ Err.notExist) :
+    ∃ n ∈ f :: encs.map (fun x => f ++ x.ext),
+      dirOpenRel n = none ∨ atRoot cfg n = Res.dir ∨ atRoot cfg n = Res.tooLong := by
+  have hv : (pickVariant cfg f encs).1 ∈ f :: encs.map (fun e => f ++ e.ext) := by
+    rcases pickVariant_mem cfg f encs with h' | ⟨e, he, h'⟩
+    · rw [h']; simp
+    · rw [h']; exact List.mem_cons_of_mem _ (List.mem_map.mpr ⟨e, he, rfl⟩)
+  refine ⟨_, hv, ?_⟩
+  unfold newStaticFile at h
+  simp only [openSegs_eq] at h
+  cases hd : dirOpenRel (pickVariant cfg f encs).1 with
+  | none => exact Or.inl rfl
+  | some segs =>
+    right
+    rw [hd] at h
+    simp only [Option.map_some] at h
+    unfold atRoot
+    cases hr : resolve cfg.tree cfg.sb (rootSegs cfg ++ relSegs (pickVariant cfg f encs).1) with
+    | file c => rw [hr] at h; cases h
+    | dir => exact Or.inl rfl
+    | notExist => rw [hr] at h; simp only [Except.error.injEq] at h; exact absurd h.symm hne
+    | tooLong => exact Or.inr rfl
+
+
 end BfeVerif.C50
